@@ -7,7 +7,8 @@ S->C     : behaviours simulated by TLC are replayed into real Tensor/TensorNetwo
            projection of the real objects after every step is judged by spec/C02/C02_Trace.tla
            (property clauses) and compared with the model state (NOTE:ModelDrift).
 C->S     : a seeded random walk over ~30 public operations on a larger world, every projection
-           judged by the same trace spec.
+           judged by the same trace spec; plus histories of the algorithmic rewrites (c02_struct.py:
+           gauging / simplification / compression on generic networks, MPS / MPO / PEPS methods).
 """
 
 import gc
@@ -807,6 +808,18 @@ def run(ctx):
     fails += ctx.validate("C02_Trace", "Trace.cfg", rrecs, name="walk-repeats", ntraces=nt // 3)
     ctx.extra["walk_steps"] = len(wrecs) + len(rrecs)
     ctx.extra["walk_rejected_ops"] = {**kinds, **kinds2}
+
+    # 4. C->S: histories of the algorithmic rewrites (C04's menu on generic networks; MPS / MPO / PEPS methods)
+    from . import c02_struct as S2
+    nr, ns = (60, 3) if quick else (400, 4)
+    grecs, gnames = S2.rewrite_histories(ctx.seed, nr, ns, 300000)
+    nh, hs = (100, 8) if quick else (500, 10)
+    srecs, snames, srefused = S2.structured_histories(ctx.seed, nh, hs, 400000)
+    fails += ctx.validate("C02_Trace", "Trace.cfg", grecs, name="rewrite-histories", ntraces=nr)
+    fails += ctx.validate("C02_Trace", "Trace.cfg", srecs, name="structured-histories", ntraces=nh)
+    ctx.extra["rewrite_history_steps"] = gnames
+    ctx.extra["structured_history_steps"] = snames
+    ctx.extra["structured_history_refused"] = srefused
 
     notes = [f for f in fails if f["clause"].startswith("NOTE:")]
     for n in notes[:10]:
